@@ -406,4 +406,68 @@ theorem run_cfg (s : St β) (hist : List Step) : cfgOf (run H s hist) = hist.fol
   | nil => rfl
   | cons x xs ih => simp only [run, List.foldl_cons, ih, step_cfg]
 
+/-! ### starts during which reads fail (`startF`) -/
+
+theorem start_out_started (s : St β) (c : StartCfg) : (start H s c).2 = .started ↔ c.accepted = true := by
+  by_cases ha : c.accepted = true
+  · rw [start_accepted H s c ha]; simp [ha]
+  · unfold start
+    unfold StartCfg.accepted at ha
+    by_cases hn : c.nameEmpty = true
+    · simp [hn, StartCfg.accepted]
+    · cases hp : Pin.validatePin c.pin with
+      | error e => simp [hn, hp, StartCfg.accepted]
+      | ok r => simp [hn, hp] at ha
+
+theorem store_uuid_eta (s : St β) (id : Nat) (h : s.store.uuid = some id) :
+    ({ s with store := { s.store with uuid := some id } } : St β) = s := by
+  cases s with
+  | mk store run =>
+    cases store
+    simp_all
+
+/-- a start with failing reads changes nothing at all, once the identity exists (it returns an error), and a start
+    without failing reads is `start` -/
+theorem startF_identity {id key : Nat} {s : St β} (hi : Identity id key s) (c : StartCfg) (f : Faults) :
+    (startF H s c f).1 = if c.accepted = true ∧ f.load = false ∧ f.entity = false then (start H s c).1 else s := by
+  unfold startF
+  by_cases ha : c.accepted = true
+  · rw [if_pos ((start_out_started H s c).mpr ha)]
+    by_cases hl : f.load = true
+    · simp [hl]
+    · by_cases he : f.entity = true
+      · simp only [hl, he, hi.uuid, Option.getD_some]
+        rw [store_uuid_eta s id hi.uuid]; simp
+      · simp [hl, he, ha]
+  · have : ¬ (start H s c).2 = .started := fun h => ha ((start_out_started H s c).mp h)
+    rw [if_neg this]
+    simp only [Prod.map_fst, id_eq, ha, false_and, if_false]
+    exact start_rejected H s c (by simpa using ha)
+
+theorem startF_keeps_identity {id key : Nat} {s : St β} (hi : Identity id key s) (c : StartCfg) (f : Faults) :
+    Identity id key (startF H s c f).1 := by
+  rw [startF_identity H hi c f]
+  split
+  · exact step_identity H hi (.start c)
+  · exact hi
+
+theorem runF_identity {id key : Nat} {s : St β} (hi : Identity id key s) (hist : List (Step × Faults)) :
+    Identity id key (runF H s hist) := by
+  induction hist generalizing s with
+  | nil => exact hi
+  | cons x xs ih =>
+    obtain ⟨st, f⟩ := x
+    cases st with
+    | start c => simp only [runF]; exact ih (startF_keeps_identity H hi c f)
+    | pair n k => simp only [runF]; exact ih (step_identity H hi _)
+    | unpair n => simp only [runF]; exact ih (step_identity H hi _)
+    | setValue p v => simp only [runF]; exact ih (step_identity H hi _)
+    | stop => simp only [runF]; exact ih (step_identity H hi _)
+    | wipe k => simp only [runF]; exact ih (step_identity H hi _)
+
+theorem bump_ge (o : Option β) (h : β) (v : Nat) : v ≤ bump o h v := by
+  unfold bump; split
+  · split <;> omega
+  · omega
+
 end Hc.Config
